@@ -131,6 +131,7 @@ type termKey struct {
 // TermStore is per worker (no locking).
 type TermStore struct {
 	varsOf map[uint32][]uint32 // term ID -> sorted var IDs (memo)
+	hasMul map[uint32]bool     // term ID -> contains a multiplication/division (memo)
 	tab   map[termKey]*Term
 	next  uint32
 	True  *Term
@@ -140,7 +141,7 @@ type TermStore struct {
 }
 
 func NewTermStore() *TermStore {
-	ts := &TermStore{tab: map[termKey]*Term{}, next: 1, ufs: map[string]string{}, varsOf: map[uint32][]uint32{}}
+	ts := &TermStore{tab: map[termKey]*Term{}, next: 1, ufs: map[string]string{}, varsOf: map[uint32][]uint32{}, hasMul: map[uint32]bool{}}
 	ts.True = ts.mk(&Term{Op: OConst, S: SBool, C: 1})
 	ts.False = ts.mk(&Term{Op: OConst, S: SBool, C: 0})
 	return ts
@@ -1140,4 +1141,26 @@ func mergeSorted(a, b []uint32) []uint32 {
 	out = append(out, a[i:]...)
 	out = append(out, b[j:]...)
 	return out
+}
+
+// HasMul reports whether t contains a multiplication, division or remainder
+// (the operations bit-blasting handles badly and the INT encoding handles well).
+func (ts *TermStore) HasMul(t *Term) bool {
+	if t.Op == OConst || t.Op == OVar {
+		return false
+	}
+	if v, ok := ts.hasMul[t.ID]; ok {
+		return v
+	}
+	r := false
+	switch t.Op {
+	case OMul, OUDiv, OSDiv, OURem, OSRem:
+		r = true
+	default:
+		for i := 0; i < int(t.N) && !r; i++ {
+			r = ts.HasMul(t.A[i])
+		}
+	}
+	ts.hasMul[t.ID] = r
+	return r
 }
